@@ -154,7 +154,9 @@ func (a *Analyzer) Analyze(constructor any) (*ConstructorInfo, error) {
 
 	// Check cache first
 	a.mu.RLock()
-	if cached, ok := a.cache[cacheKey]; ok {
+	// Function values created by reflect.MakeFunc (and closures of one factory)
+	// share a code pointer; a hit only counts if it describes the same type.
+	if cached, ok := a.cache[cacheKey]; ok && cached.Type == typ {
 		a.mu.RUnlock()
 		return cached, nil
 	}
